@@ -443,6 +443,7 @@ impl MutationParser {
                     }
                     let entity_model = data_model.get_entity(&entity.name)?;
                     entity.short_name = entity_model.short_name.clone();
+                    entity.enable_full_text = entity_model.enable_full_text;
                     Self::fill_not_nullable(&mut entity, entity_model)?;
                     entities.push(entity)
                 }
@@ -481,6 +482,7 @@ impl MutationParser {
         let adepth = Self::parse_entity_internals(&mut entity, data_model, var_pair, variables)?;
         let entity_model = data_model.get_entity(&entity.name)?;
         entity.short_name = entity_model.short_name.clone();
+        entity.enable_full_text = entity_model.enable_full_text;
 
         Self::fill_not_nullable(&mut entity, entity_model)?;
 
